@@ -48,7 +48,7 @@ func UpdateList[T any](remoteWrite bool, existingData []T, newData []T, filterPa
 	}
 
 	// process update filter (with selectors and elements)
-	if filterPartial != nil {
+	if filterPartial != nil && len(newData) > 0 {
 		if filterData, err := filterPartial.Data(); err == nil {
 			newData, noErrors := copyToSelectedData(remoteWrite, existingData, filterData, &newData[0])
 			if !noErrors {
